@@ -6,6 +6,7 @@ mod c16;
 mod c17;
 mod c19;
 mod c20;
+mod chain;
 mod cli;
 mod exec;
 mod rng;
@@ -137,6 +138,25 @@ fn main() {
                 .iter()
                 .filter_map(|l| srv::parse_any(l))
                 .map(|s| srv::any_to_case(&s))
+                .collect();
+            write_cases(&out.expect("--out"), &cases);
+        }
+        ("chain", "gen") => {
+            let mut rng = Rng::new(seed);
+            let mut w = open_out(&out);
+            for _ in 0..count {
+                writeln!(w, "{}", chain::show(&chain::gen(&mut rng))).unwrap();
+            }
+        }
+        ("chain", "sweep") => {
+            let mut w = open_out(&out);
+            chain::sweep(|s| writeln!(w, "{}", chain::show(&s)).unwrap());
+        }
+        ("chain", "run") => {
+            let cases: Vec<Case> = read_lines(&input)
+                .iter()
+                .filter_map(|l| chain::parse(l))
+                .map(|s| chain::to_case(&s))
                 .collect();
             write_cases(&out.expect("--out"), &cases);
         }
